@@ -2,6 +2,7 @@ SPECIFICATION Spec
 CONSTANTS
   MaxLen = 6
   Pairs = FALSE
+  TiesLen = 6
   ValSet <- SignedSet
   ValSet2 = {0, 1}
   Elem <- ElemDef
